@@ -224,6 +224,11 @@ def certified_ln(ctx):
     return res
 
 
+def cutoff_harmonic(R, g):
+    """harmonic of the shielding cutoff of parallel plates with gap g on a bend of radius R"""
+    return math.sqrt(2.0 / 3.0) * (math.pi * R / g) ** 1.5
+
+
 # ----------------------------------------------------------------------------- main parts
 
 def run_models(ctx, tg, dis, only=None):
@@ -252,6 +257,19 @@ def run_models(ctx, tg, dis, only=None):
         c.nf, c.sz = int(r["vec_n"][0][0]), int(r["vec_n"][0][1])
         zero_from = c.n // 2 if c.kind in ("coll", "const") else c.n // 2 + 1
         c.ok = shape_oracle(ctx, c, c.v, c.nf, c.sz, zero_from, "model " + c.kind)
+        if c.kind == "pp" and c.ok:
+            # explored: from half the shielding cutoff upwards every sample 1..n/2 carries resistance
+            # (observed Re Z_pp / Re Z_fs = 0.15 at n_c/2; far below the cutoff the Airy terms underflow to 0)
+            R = C_LIGHT / (2 * math.pi * c.p["f0"])
+            nc = cutoff_harmonic(R, c.p["g"])
+            delta = c.p["fmax"] / c.p["f0"] / (c.n - 1)
+            for i in range(1, c.n // 2 + 1):
+                if i * delta >= 0.5 * nc and not c.v[i][0] > 0:
+                    ctx.violation("impl-oracle", "parallel-plates sample %d (%.3g times the shielding cutoff) carries no resistance" % (i, i * delta / nc),
+                                  case=c.replay(), observed=sv([c.v[i]]), expected="Re Z > 0 for harmonics >= n_c/2",
+                                  sig=dict(kind="model", clause="pp-sample-present", model="pp"))
+                    c.ok = False
+                    break
         if not finite(c.v):
             continue
         m = len(c.v)
@@ -455,10 +473,6 @@ def run_sums(ctx, tg, dis):
 PP_NEAR_FS = 1e-3        # |Z_pp - Z_fs| <= 1e-3 |Z_fs| for harmonics >= 10 n_c   (observed 1.3e-4: the rounded prefactor)
 PP_SUPPRESSED = 1e-4     # Re Z_pp <= 1e-4 Re Z_fs for harmonics <= n_c/4        (observed 2.3e-6 at n_c/4)
 ONE_SIDED = 1e-2         # wake energy on the wrong side <= 1e-2 of the right side (observed <= 3e-4 for nmax >= 1024)
-
-
-def cutoff_harmonic(R, g):
-    return math.sqrt(2.0 / 3.0) * (math.pi * R / g) ** 1.5
 
 
 def run_explore(ctx, tg):
